@@ -270,6 +270,60 @@ pub fn cases(tier: Tier) -> Vec<Case> {
             }
         }
     }
+    // systematic unit damage: every string over a small alphabet (ASCII unit letters plus a two-byte and a
+    // three-byte character) up to three characters, and every valid unit with one character deleted or one
+    // character inserted at every position; whatever is not a documented unit must be rejected
+    let mut damaged: Vec<String> = vec![];
+    {
+        let alpha = ['i', 'b', 'k', 's', 'e', 'é', '分'];
+        let mut fr: Vec<String> = vec![String::new()];
+        for _ in 0..3 {
+            let mut nx = vec![];
+            for w in &fr {
+                for c in alpha {
+                    let mut n = w.clone();
+                    n.push(c);
+                    nx.push(n);
+                }
+            }
+            damaged.extend(nx.iter().cloned());
+            fr = nx;
+        }
+        let valid: Vec<&str> = SIZE_UNITS.iter().map(|(u, _)| *u).chain(INTERVAL_UNITS.iter().map(|(u, _)| *u)).collect();
+        for u in valid {
+            let cs: Vec<char> = u.chars().collect();
+            for i in 0..cs.len() {
+                let mut d = cs.clone();
+                d.remove(i);
+                damaged.push(d.into_iter().collect());
+            }
+            for i in 0..=cs.len() {
+                for ins in ['s', 'i', 'é', '分', '😀'] {
+                    let mut d = cs.clone();
+                    d.insert(i, ins);
+                    damaged.push(d.into_iter().collect());
+                }
+            }
+        }
+        damaged.sort();
+        damaged.dedup();
+        damaged.retain(|d| !d.is_empty());
+    }
+    for j in &damaged {
+        for sp in ["", " "] {
+            let text = format!("7{}{}", sp, j);
+            for form in [Form::YamlQuoted, Form::JsonString, Form::TomlString] {
+                let is_size_unit = SIZE_UNITS.iter().any(|(u, _)| u.eq_ignore_ascii_case(j));
+                let is_int_unit = INTERVAL_UNITS.iter().any(|(u, _)| u.eq_ignore_ascii_case(j));
+                if !is_size_unit {
+                    out.push(Case { kind: Kind::Size, form, text: text.clone(), expect: Expect::Reject });
+                }
+                if !is_int_unit {
+                    out.push(Case { kind: Kind::Interval, form, text: text.clone(), expect: Expect::Reject });
+                }
+            }
+        }
+    }
     for neg in ["-1", "-0", "-1024", "-1 kb", "- 1", "-9223372036854775808", "-9223372036854775809", "1.5", "1.0", "0.5 kb", "1.5 hours", ".5", "1.", "1,5", "1_000", "0x10 kb", "١٢ kb", "", " ", "kb", "second", "+", "--1"] {
         for form in [Form::YamlQuoted, Form::JsonString, Form::TomlString] {
             out.push(Case { kind: Kind::Size, form, text: neg.to_string(), expect: Expect::Reject });
